@@ -254,7 +254,7 @@ Exec1(F, m) ==
                  IF f.m = "is_closure" THEN
                       (IF recv.t # "fn" THEN OomM(m, "is_closure on " \o recv.t)
                        ELSE SetTop(m, Adv([a EXCEPT !.ops = <<VBool(recv.cb.has)>>])))
-                 ELSE IF recv.t = "fn" \/ (\E k \in 1..Len(rest) : rest[k].t = "fn") THEN OomM(m, "built-in " \o f.m \o " with a function")
+                 ELSE IF recv.t = "fn" \/ (f.m = "index_of" /\ \E k \in 1..Len(rest) : HasFn(m, rest[k], 3)) THEN OomM(m, "built-in " \o f.m \o " with a function")
                  ELSE LET r == Builtin(recv, f.m, rest, HeapOf(m)) IN
                       IF r.st.status = "type" THEN OomM(m, "built-in " \o f.m \o " on " \o recv.t)
                       ELSE IF r.st.status # "ok" THEN FailM(m, r.st.status)
